@@ -30,8 +30,8 @@ IMPORT_LIBRARY = False      # the worker stays pristine; setup() performs the on
 RULE = ('cases are histories (lists of event names, each executable from its name alone) generated from the '
         'legal-use model of DESIGN section 5 C10: systematic "init(T) before / after the first public touch" pairs for '
         'every lazy group and public route, every mutation before/after the public first touch and next to a second '
-        'private table, parse/mix/pickle probes, plus seeded random legal histories of length <= 16 (quick; <= 24 and '
-        'closure-style pairs/triples in thorough).  Features that a one-feature probe history shows to violate on its '
+        'private table, parse/mix/pickle probes (149 histories), plus seeded random legal histories: 16 x 112 of length '
+        '<= 16 in quick, 16 x 800 of length <= 24 and 355 closure-style pairs/triples in thorough.  Features that a one-feature probe history shows to violate on its '
         'own on the tree under test (an order-sensitive init, a leaking mutation) are kept out of ~92 % of the random '
         'histories.  distinct = distinct (abstract state before, event) transitions executed, where the abstract state '
         'is the class-dictionary kind of every lazily loaded attribute of Element/Isotope/Ion plus, per private table, '
@@ -339,6 +339,14 @@ def finish(ctx):
         os.remove(_state.get('canon_path', ''))
     except OSError:
         pass
+    if 'canon' in _state:
+        # the interpreter every history was forked from must still be pristine
+        import periodictable
+        st = X.loader_state()
+        ctx.evaluated(1, 'parent_still_pristine')
+        if X.pending_groups(st) != sorted(X.LAZY) or list(periodictable.elements.properties) != ['mass', 'density'] \
+                or len(periodictable.core.PRIVATE_TABLES) != 1:
+            ctx.harness_error('the parent interpreter is no longer pristine: %r %r' % (st, periodictable.elements.properties))
     if ctx.replay:
         return
     for g in X.LAZY:
